@@ -101,7 +101,67 @@ def oracle(prog, obs, impl):
                     fails.append((i, "fill_to decreased the solvent"))
             if after['max'] is not None and after['vol'] > after['max'] * (1 + F(1, 10**9)):
                 fails.append((i, "fill_to exceeded the capacity"))
+        if op['op'] == 'fill' and 'c' in op['t'] and op['t']['c'] in dumps and not o['ok']:
+            before = dumps[op['t']['c']]
+            q, b = dsl.qty_val(op['q']), op['q']['b']
+            cur = histcheck.measure(subs, before, b)
+            if q > 0 and abs(cur - q) <= abs(q) * F(1, 10**12) and (before['max'] is None or before['vol'] <= before['max']):
+                fails.append((i, f"fill_to {dsl.qty_str(op['q'])} on a container that holds exactly that was refused: {o['exc']} {o.get('msg')}"))
+        if op['op'] == 'fill' and 'p' in op['t'] and op['t']['p'] in dumps:
+            # a region of a plate: every addressed well reaches the target by solvent alone, or the whole call is refused
+            bd = dumps[op['t']['p']]
+            cells = [a * bd['cols'] + c for a, c in dsl.region_cells(op['t']['r'], bd['cols'])]
+            q, b = dsl.qty_val(op['q']), op['q']['b']
+            held = [histcheck.measure(subs, bd['wells'][j], b) for j in cells]
+            if o['ok']:
+                ad = o['out'][0][1]
+                for j in cells:
+                    wb, wa = bd['wells'][j], ad['wells'][j]
+                    got = histcheck.measure(subs, wa, b)
+                    if abs(got - q) > abs(q) * F(1, 10**7) * k + F(1, 10**12):
+                        fails.append((i, f"fill_to {dsl.qty_str(op['q'])} on a region was accepted but well {j} holds {float(got)!r} {b}"
+                                         + (f" (it held {float(histcheck.measure(subs, wb, b))!r} before)" if histcheck.measure(subs, wb, b) > q else '')))
+                        break
+                    if wa['max'] is not None and wa['vol'] > wa['max'] * (1 + F(1, 10**9)):
+                        fails.append((i, f"fill_to on a region: well {j} exceeds its capacity"))
+                        break
+                    if any(s != op['solvent'] and wb['cont'].get(s, F(0)) != wa['cont'].get(s, F(0)) for s in set(wb['cont']) | set(wa['cont'])):
+                        fails.append((i, f"fill_to on a region changed a substance that is not the solvent (well {j})"))
+                        break
+            elif q > 0 and all(h < q * (1 - F(1, 10**4)) for h in held) and o['exc'] == 'ValueError':
+                pass      # (whether it fits the wells' capacity is judged by the correspondence with the model and by c03)
     return fails + oracles.c03(prog, obs, impl)
+
+
+def fill_boundary_cases(chk):
+    """directed: fill_to the quantity already held (a container made with it, one that received it by transfers: nothing to add, accepted);
+    plate regions with a target above the wells' capacity, below what one of the wells holds (both refused as a whole), and a feasible one"""
+    q = lambda v, p, b: {'v': v, 'p': p, 'b': b}
+    out = []
+    g = gen.Gen(random.Random(chk.seed * 100003 + 119000), nsubs=9)
+    for init, target, solvent in (([(1, q('50', 'u', 'L'))], q('50', 'u', 'L'), 1), ([(2, q('100', 'u', 'L'))], q('100', 'u', 'L'), 2),
+                                  ([(1, q('3', 'm', 'L'))], q('3', 'm', 'L'), 2)):
+        op = {'op': 'newc', 'out': g.fresh(), 'name': g.name(), 'max': q('5', 'm', 'L'), 'init': init}
+        if g.emit(op, 'fillsame:newc')['ok']:
+            g.emit({'op': 'fill', 't': {'c': op['out']}, 'solvent': solvent, 'q': target, 'out': g.fresh()}, 'boundary:fill-to-current')
+    out.append(g)
+    g = gen.Gen(random.Random(chk.seed * 100003 + 119001), nsubs=9)
+    stock = {'op': 'newc', 'out': g.fresh(), 'name': g.name(), 'init': [(1, q('20', 'm', 'L')), (4, q('100', 'm', 'g'))]}
+    g.emit(stock, 'fillp:newc')
+    g.containers.append(stock['out'])
+    p = g.new_plate(rows=2, cols=3, max_ul=200)
+    whole = {'rect': [[0, 1], [0, 1, 2]]}
+    s1, p1 = g.fresh(), g.fresh()
+    g.emit({'op': 'transfer', 'src': {'c': stock['out']}, 'dst': {'p': p, 'r': whole}, 'q': q('10', 'u', 'L'), 'osrc': s1, 'odst': p1}, 'fillp:load')
+    s2, p2 = g.fresh(), g.fresh()
+    g.emit({'op': 'transfer', 'src': {'c': s1}, 'dst': {'p': p1, 'r': {'rect': [[0], [0]]}}, 'q': q('50', 'u', 'L'), 'osrc': s2, 'odst': p2}, 'fillp:load')
+    cap = 200.0      # uL
+    for r, target, tag in ((whole, q(gen.dec(cap * 1.25, 3), 'u', 'L'), 'fillp:over-capacity'), (whole, q('50', 'u', 'L'), 'fillp:below-one-well'),
+                           ({'rect': [[1], [0, 1, 2]]}, q(gen.dec(cap * 0.5, 3), 'u', 'L'), 'fillp:ok'), ({'list': [[0, 0], [1, 1]]}, q('30', 'u', 'L'), 'fillp:below-one-well'),
+                           ({'rect': [[0], [1, 2]]}, q('15', 'm', 'g'), 'fillp:ok')):
+        g.emit({'op': 'fill', 't': {'p': p2, 'r': r}, 'solvent': 1, 'q': target, 'out': g.fresh()}, tag)
+    out.append(g)
+    return out
 
 
 def make_cases(chk):
@@ -134,7 +194,7 @@ def make_cases(chk):
                 rel = rng.choice([1.2, 1.5, 3, 0.6, 0.9, 0.98, 0.995])     # a target just below the current quantity is as unreachable as a far one
                 g.fill(target='c', rel=rel, sig=4 if rel > 0.95 and rel < 1 else 2)
         gens.append(g)
-    return gen.twin_lot_cases(chk.seed, 'fill') + exact_capacity_dilutions(chk) + nanolitre_dilutions(chk) + gens
+    return gen.twin_lot_cases(chk.seed, 'fill') + exact_capacity_dilutions(chk) + nanolitre_dilutions(chk) + fill_boundary_cases(chk) + gens
 
 
 def nanolitre_dilutions(chk):
